@@ -20,6 +20,7 @@ def families(tier):
     fam['single_quick'] = lambda: R.family_single(R.V_QUICK, 3, [1.0, 0.5, 0.3, 0.25])
     fam['single_underflow'] = lambda: R.family_single(R.V_UNDER, 3, [1.0, 5e-324], patterns=['A', 'AA', 'AB', 'AAB', 'ABA', 'ABC'])
     fam['pairs_tiny'] = lambda: R.family_multi(R.V_TINY, 2, [0.5, 0.25, 0.3], 2)
+    fam['long_lists_similar_names'] = family_similar_names
     if tier == 'thorough':
         fam['single_full2'] = lambda: R.family_single(R.V_FULL, 3, [1.0, 0.3], patterns=['A', 'AA', 'AB', 'AAA', 'AAB', 'ABA', 'ABB'])
         fam['single_full3'] = lambda: R.family_single(R.V_FULL, 2, [1.0, 0.3], patterns=['ABC'])
@@ -28,6 +29,28 @@ def families(tier):
         fam['triples_tiny'] = lambda: R.family_multi(R.V_TINY, 2, [0.5, 0.25], 3)
         fam['pairs_abc'] = lambda: R.family_multi([0.5, 0.25, 0.3], 2, [0.5, 0.25], 2, max_vars=3, type_names='AB')
     return fam
+
+
+def family_similar_names():
+    """Variable names that are prefixes of each other (D2 / D21 / D211, as in real rulesets) with group lists long enough for
+    two-digit indices, in structures of equal base probability: anything keyed on a textual rendering of (name, index) collides here."""
+    def geo(n, ratio, start=1.0):
+        out = []
+        p = start
+        for _ in range(n):
+            out.append(p)
+            p *= ratio
+        return out
+    for n_long, n_short in ((12, 4), (23, 3), (11, 11)):
+        for ratio in (0.5, 0.7):
+            for names in (('D2', 'D21'), ('A1', 'A11'), ('D2', 'D21', 'D211')):
+                types = {}
+                for k, name in enumerate(names):
+                    types[name] = geo(n_long if k == 0 else n_short, ratio, start=1.0 if k == 0 else 0.75)
+                for bps in ((0.5,) * len(names), (0.5, 0.25, 0.125)[:len(names)]):
+                    yield types, [(bp, [name]) for bp, name in zip(bps, names)]
+                # the same names inside longer structures
+                yield types, [(0.5, [names[0], names[1]]), (0.5, [names[1], names[0]])]
 
 
 def shards(tier):
